@@ -1043,6 +1043,10 @@ class Facts:
                 return False
             # (the function it is spliced into counts: a closure that moved into a new helper
             # together with its loop is still the reference closure)
+            if cpath.startswith('extern:'):
+                root = j.get('root') or j['path']
+                root = self.renamed.get(root, root)
+                return kind not in self.known_closures.get(root, [])
             if raw[cpath]['kind'] != 'Closure':
                 return cpath in unknown      # a new helper function handed over as the callable
             root = j.get('root') or j['path']
@@ -1074,8 +1078,8 @@ class Facts:
         if path not in self._norm:
             import desugar
             jb = self.bodies[path].j
-            jd = desugar.Desugarer(self._inl, lambda c, k, j: self._inl[c]['kind'] == 'Closure' or
-                                   c in self.unknown_functions).run(jb)
+            jd = desugar.Desugarer(self._inl, lambda c, k, j: c.startswith('extern:') or self._inl[c]['kind'] == 'Closure'
+                                   or c in self.unknown_functions).run(jb)
             self._norm[path] = self.bodies[path] if jd is jb else Body(self, desugar.split_switch_operands(jd))
         return self._norm[path]
 
